@@ -158,8 +158,23 @@ func main() {
 		}
 		r = runProperty(spec, *tier, nil)
 		classify(r, known)
+		if *tier == "thorough" && len(r.Violations) == 0 && !renameLocals {
+			// robustness self-check: decide everything again with every named local rendered under
+			// another name; a rule that only holds under the current local names is a false alarm in waiting
+			renameLocals = true
+			rr := runProperty(spec, "quick", nil)
+			renameLocals = false
+			classify(rr, known)
+			for _, o := range rr.Violations {
+				b := Oblig{Prop: id, Rule: "self-test", Construct: "rename-locals:" + o.Rule + "/" + o.Construct, Status: Undecided, Engine: "selftest",
+					Detail: "this obligation holds on the tree but not when the analysed functions' local variables are renamed: the rule depends on a local's name"}
+				r.Obligs = append(r.Obligs, b)
+				r.Violations = append(r.Violations, b)
+			}
+			r.SelfTest = append(r.SelfTest, selfTestResult{Name: "rename-all-locals", File: "(in-memory rendering)", Result: map[bool]string{true: "silent", false: "BRITTLE"}[len(rr.Violations) == 0]})
+		}
 		if *tier == "thorough" && len(spec.Mutants) > 0 && len(r.Violations) == 0 {
-			r.SelfTest = runSelfTest(spec)
+			r.SelfTest = append(r.SelfTest, runSelfTest(spec)...)
 			for _, s := range r.SelfTest {
 				if s.Result == "MISSED" {
 					// a rule that no longer fires on its stored breaking edit is not trusted
